@@ -1,6 +1,6 @@
 /-
 C18  The drawing front end renders what the document defines.
-Only property theorems and non-vacuity examples live here (helper lemmas are `private`); every `theorem` of this
+Only property theorems and non-vacuity examples live here (helper lemmas: Lemmas/Render.lean); every `theorem` of this
 file is an obligation counted by ./check C18.
 -/
 import Mathlib.Algebra.Order.Field.Rat
@@ -9,7 +9,9 @@ import Mathlib.Tactic.Linarith
 import Mathlib.Tactic.FieldSimp
 import Mathlib.Algebra.Order.Ring.Abs
 import EzdxfVerif.Model.Render
+import EzdxfVerif.Lemmas.Render
 import EzdxfVerif.Gen.RenderTables
+import EzdxfVerif.Gen.RenderShape
 
 namespace EzdxfVerif.Props.C18
 open EzdxfVerif.Render
@@ -29,53 +31,44 @@ theorem comp_assoc (f g h : Aff) : (f.comp g).comp h = f.comp (g.comp h) := by
 theorem comp_id (f : Aff) : f.comp Aff.id = f ∧ Aff.id.comp f = f := by
   constructor <;> (cases f; simp [Aff.comp, Aff.id])
 
-
 /-! ## the block reference state stack -/
 
 /-- the state stack (`current_block_reference_properties`, `_saved_states`) is the same after any successful draw,
-    also on the invisible/skip paths; no acyclicity or lawfulness hypothesis -/
-theorem stack_balanced (doc : Doc) (ctx : Ctx) (fuel : Nat) (ents : List Ent) (st : State) :
-    ∀ out st', drawEnts doc ctx fuel ents st = .ok (out, st') → st' = st := by
-  fun_induction drawEnts doc ctx fuel ents st with
-  | case1 fuel st => intro out st' h; simp at h; exact h.2.symm
-  | case2 fuel k p pts es st rp hv out st1 hrest ih =>
-    intro o s h; simp at h; rw [← h.2]; exact ih _ _ hrest
-  | case3 fuel k p pts es st rp hv e herr ih => intro o s h; simp at h
-  | case4 fuel k p pts es st rp hv ih => intro o s h; exact ih _ _ h
-  | case5 i es st rp hv => intro o s h; simp at h
-  | case6 i es st rp hv fuel' hfind => intro o s h; simp at h
-  | case7 i es st rp hv fuel' st1 blk hfind e herr ih => intro o s h; simp at h
-  | case8 i es st rp hv fuel' st1 blk hfind o2 st2 hch e hpop ih => intro o s h; simp at h
-  | case9 i es st rp hv fuel' st1 o1 blk hfind o2 st2 hch st3 hpop out st4 hrest ih1 ih2 =>
-    intro o s h; simp at h
-    have h2 : st2 = st1 := ih1 _ _ hch
-    have h3 : st3 = st := by
-      subst h2
-      simp [State.pop, st1, State.push] at hpop
-      exact hpop.symm
-    rw [← h.2, ih2 _ _ hrest, h3]
-  | case10 i es st rp hv fuel' st1 blk hfind o2 st2 hch st3 hpop e herr ih1 ih2 => intro o s h; simp at h
-  | case11 fuel i es st rp hv ih => intro o s h; exact ih _ _ h
+    also on the invisible/skip paths and after every grid element of a MINSERT; no acyclicity or lawfulness hypothesis.
+    (Session 3: proved through the invariant principle `inv_drawEnts`, which needs one fact per step of the traversal;
+    the pairing push_state/pop_state of the source is tied by `tie_push_pop_shape`.) -/
+theorem stack_balanced (doc : Doc) (ctx : Ctx) (fuel h : Nat) (ents : List Ent) (st : State) :
+    ∀ out st', drawEnts doc ctx fuel h ents st = .ok (out, st') → st' = st := by
+  intro out st' hh
+  refine inv_drawEnts (R := fun a _ b => b = a) ⟨?_, ?_, ?_, ?_, ?_⟩ doc fuel h ents st out st' hh
+  · intro _; rfl
+  · intro a _ b _ c h1 h2; rw [h2, h1]
+  · intros; rfl
+  · intros; rfl
+  · intro st rp o st2 st3 h1 h2
+    subst h1
+    simp [State.pop, State.push] at h2
+    exact h2.symm
 
 /-! ## nothing is drawn on hidden layers -/
 
-private theorem emitLeaf_layer (k : Kind) (rp : RProps) (pts : List P2) :
-    ∀ pr ∈ emitLeaf k rp pts, pr.layer = rp.layer := by
-  intro pr h
-  cases k <;> simp only [emitLeaf] at h
-  case line => simp [mkPrim] at h; simp [h]
-  case point => split at h <;> simp [mkPrim] at h; simp [h]
-  case attdef => simp [mkPrim] at h; simp [h]
-  case circle => simp [mkPrim] at h; simp [h]
+private theorem emitLeaf_layer (k : Kind) (rp : RProps) (h : Nat) (pts : List P2) :
+    ∀ pr ∈ emitLeaf k rp h pts, pr.layer = rp.layer := by
+  intro pr hh
+  cases k <;> simp only [emitLeaf] at hh
+  case line => simp [mkPrim] at hh; simp [hh]
+  case point => split at hh <;> simp [mkPrim] at hh; simp [hh]
+  case attdef => simp [mkPrim] at hh; simp [hh]
+  case circle => simp [mkPrim] at hh; simp [hh]
   case polyline c =>
-    split at h
-    · simp at h
-    · simp at h
-    · split at h <;> simp [mkPrim] at h <;> simp [h]
+    split at hh
+    · simp at hh
+    · simp at hh
+    · split at hh <;> simp [mkPrim] at hh <;> simp [hh]
   case solid =>
-    split at h
-    · split at h <;> simp [mkPrim] at h <;> simp [h]
-    · simp at h
+    split at hh
+    · split at hh <;> simp [mkPrim] at hh <;> simp [hh]
+    · simp at hh
 
 private theorem visible_shown (ctx : Ctx) (cur : Option RProps) (f : Bool) (p : EProps)
     (h : (resolveAll ctx cur false f p).visible = true) : LayerShown ctx (resolveAll ctx cur false f p).layer := by
@@ -87,11 +80,11 @@ private theorem visible_shown (ctx : Ctx) (cur : Option RProps) (f : Bool) (p : 
   simp at hc
   simp [hc] at h
 
-private theorem drawAttribs_shown (ctx : Ctx) (cur : Option RProps) (as : List Attrib) :
-    ∀ pr ∈ drawAttribs ctx cur as, LayerShown ctx pr.layer := by
-  intro pr h
-  simp only [drawAttribs, List.mem_flatMap] at h
-  obtain ⟨a, _, ha⟩ := h
+private theorem drawAttribs_shown (ctx : Ctx) (cur : Option RProps) (h : Nat) (as : List Attrib) :
+    ∀ pr ∈ drawAttribs ctx cur h as, LayerShown ctx pr.layer := by
+  intro pr hh
+  simp only [drawAttribs, List.mem_flatMap] at hh
+  obtain ⟨a, _, ha⟩ := hh
   split at ha
   · rename_i hv
     simp [mkPrim] at ha
@@ -99,151 +92,114 @@ private theorem drawAttribs_shown (ctx : Ctx) (cur : Option RProps) (as : List A
     exact visible_shown ctx cur a.flag a.props hv
   · simp at ha
 
-theorem nothing_on_hidden_layers (doc : Doc) (ctx : Ctx) (fuel : Nat) (ents : List Ent) (st : State) :
-    ∀ out st', drawEnts doc ctx fuel ents st = .ok (out, st') → ∀ pr ∈ out, LayerShown ctx pr.layer := by
-  fun_induction drawEnts doc ctx fuel ents st with
-  | case1 fuel st => intro out st' h pr hpr; simp at h; rw [h.1] at hpr; simp at hpr
-  | case2 fuel k p pts es st rp hv out st1 hrest ih =>
-    intro o s h pr hpr; simp at h
-    rw [← h.1] at hpr
-    rcases List.mem_append.mp hpr with h1 | h1
-    · rw [emitLeaf_layer k rp pts pr h1]; exact visible_shown ctx st.current false p hv
-    · exact ih _ _ hrest pr h1
-  | case3 fuel k p pts es st rp hv e herr ih => intro o s h; simp at h
-  | case4 fuel k p pts es st rp hv ih => intro o s h; exact ih _ _ h
-  | case5 i es st rp hv => intro o s h; simp at h
-  | case6 i es st rp hv fuel' hfind => intro o s h; simp at h
-  | case7 i es st rp hv fuel' st1 blk hfind e herr ih => intro o s h; simp at h
-  | case8 i es st rp hv fuel' st1 blk hfind o2 st2 hch e hpop ih => intro o s h; simp at h
-  | case9 i es st rp hv fuel' st1 o1 blk hfind o2 st2 hch st3 hpop out st4 hrest ih1 ih2 =>
-    intro o s h pr hpr; simp at h
-    rw [← h.1] at hpr
-    simp only [List.mem_append] at hpr
-    rcases hpr with h1 | h1 | h1
-    · exact drawAttribs_shown ctx st1.current i.attribs pr h1
-    · exact ih1 _ _ hch pr h1
-    · exact ih2 _ _ hrest pr h1
-  | case10 i es st rp hv fuel' st1 blk hfind o2 st2 hch st3 hpop e herr ih1 ih2 => intro o s h; simp at h
-  | case11 fuel i es st rp hv ih => intro o s h; exact ih _ _ h
+/-- nothing reaches the backend on a layer that the (resolved) layer table hides: off, frozen, not plotted in export mode,
+    frozen in the viewport (`mkVpCtx`), switched off by a layer properties override (`Ctx.overrideLayers`) -/
+theorem nothing_on_hidden_layers (doc : Doc) (ctx : Ctx) (fuel h : Nat) (ents : List Ent) (st : State) :
+    ∀ out st', drawEnts doc ctx fuel h ents st = .ok (out, st') → ∀ pr ∈ out, LayerShown ctx pr.layer := by
+  intro out st' hh
+  refine inv_drawEnts (R := fun _ o _ => ∀ pr ∈ o, LayerShown ctx pr.layer) ⟨?_, ?_, ?_, ?_, ?_⟩ doc fuel h ents st out st' hh
+  · intro _ pr hpr; simp at hpr
+  · intro _ o1 _ o2 _ h1 h2 pr hpr
+    rcases List.mem_append.mp hpr with h | h
+    · exact h1 pr h
+    · exact h2 pr h
+  · intro st k p hh pts hv pr hpr
+    rw [emitLeaf_layer k _ hh pts pr hpr]
+    exact visible_shown ctx st.current false p hv
+  · intro st hh as pr hpr
+    exact drawAttribs_shown ctx st.current hh as pr hpr
+  · intro _ _ _ _ _ h1 _; exact h1
 
-/-! ## totality -/
+/-- the SPECIFICATION itself (what the document defines, `Spec.flatten` of any block tree, any matrices, any grids) never lists a
+    primitive on a layer that the layer table hides - independently of the traversal, of lawfulness and of the fall-back -/
+theorem spec_nothing_on_hidden_layers (ctx : Ctx) (f : Forest) (env : Option RProps) (acc : Aff) (h : Nat) :
+    ∀ pr ∈ Spec.flatten ctx env acc h f, LayerShown ctx pr.layer := by
+  refine spec_forall ctx (fun pr => LayerShown ctx pr.layer) ?_ ?_ f env acc h
+  · intro env k p hh pts hv pr hpr
+    rw [emitLeaf_layer k _ hh pts pr hpr]
+    exact visible_shown ctx env false p hv
+  · intro cur hh as pr hpr
+    exact drawAttribs_shown ctx cur hh as pr hpr
 
-private theorem reach_transform (doc : Doc) (m : Aff) (fuel : Nat) (ents : List Ent) :
-    reach doc fuel (ents.map (transformEnt m)) = reach doc fuel ents := by
-  fun_induction reach doc fuel ents with
-  | case1 fuel => simp [reach]
-  | case2 fuel k p pts es ih => simp [transformEnt, reach, ih]
-  | case3 i es => simp [transformEnt, reach]
-  | case4 fuel' i es hfind =>
-    have hname : (transformIns m i).name = i.name := rfl
-    simp [transformEnt, reach, hname, hfind]
-  | case5 fuel' i es blk hfind ih1 ih2 =>
-    have hname : (transformIns m i).name = i.name := rfl
-    simp [transformEnt, reach, hname, hfind, ih2]
+/-! ## `Insert.transform` is lawful wherever it does not raise -/
 
-private theorem reach_filter (doc : Doc) (p : Ent → Bool) (fuel : Nat) (ents : List Ent) :
-    reach doc fuel ents = true → reach doc fuel (ents.filter p) = true := by
-  fun_induction reach doc fuel ents with
-  | case1 fuel => simp [reach]
-  | case2 fuel k q pts es ih =>
-    intro h
-    simp only [List.filter_cons]
-    split
-    · simp [reach]; exact ih h
-    · exact ih h
-  | case3 i es => intro h; simp at h
-  | case4 fuel' i es hfind => intro h; simp at h
-  | case5 fuel' i es blk hfind ih1 ih2 =>
-    intro h
-    simp at h
-    simp only [List.filter_cons]
-    split
-    · simp [reach, hfind, h.1, ih2 h.2]
-    · exact ih2 h.2
+/-- FULL GENERALITY (session 3): for EVERY matrix `m` (shear, non-uniform, mirror), every rotation given by a rational
+    (cos, sin), every scale factors, extrusion ±Z, MINSERT or not: if `Insert.transform(m)` does not raise
+    (`InsertCoordinateSystem.transform`: transformed axes orthogonal, lengths non-zero) the transformed reference has the
+    matrix `matrix44() @ m`, and keeps its properties, block name, extrusion, grid counts; its ATTRIBs are transformed by `m` -/
+theorem transformIns_lawful_general (m : Aff) (i i' : Ins) (base : P2) (h : transformIns m i = .ok i') :
+    xfOf i' base = (xfOf i base).comp m ∧ i'.props = i.props ∧ i'.name = i.name ∧
+    i'.attribs = i.attribs.map (transformAttrib m) ∧ i'.flip = i.flip ∧ i'.rows = i.rows ∧ i'.cols = i.cols :=
+  ⟨transformIns_ok_matrix m i i' base h, transformIns_ok_fields m i i' h⟩
 
-theorem draw_total (doc : Doc) (ctx : Ctx) (fuel : Nat) (ents : List Ent) (st : State) :
-    reach doc fuel ents = true → ∃ out, drawEnts doc ctx fuel ents st = .ok (out, st) := by
-  fun_induction drawEnts doc ctx fuel ents st with
-  | case1 fuel st => intro _; exact ⟨[], rfl⟩
-  | case2 fuel k p pts es st rp hv out st1 hrest ih =>
-    intro h
-    simp [reach] at h
-    have := stack_balanced doc ctx fuel es st _ _ hrest
-    subst this
-    exact ⟨_, rfl⟩
-  | case3 fuel k p pts es st rp hv e herr ih =>
-    intro h; simp [reach] at h
-    obtain ⟨o, ho⟩ := ih h
-    rw [ho] at herr; simp at herr
-  | case4 fuel k p pts es st rp hv ih => intro h; simp [reach] at h; exact ih h
-  | case5 i es st rp hv => intro h; simp [reach] at h
-  | case6 i es st rp hv fuel' hfind => intro h; simp [reach, hfind] at h
-  | case7 i es st rp hv fuel' st1 blk hfind e herr ih =>
-    intro h; simp [reach, hfind] at h
-    have hr : reach doc fuel' (virtualEntities (xfOf i blk.base) blk) = true := by
-      simp only [virtualEntities, reach_transform]; exact reach_filter doc _ _ _ h.1
-    obtain ⟨o, ho⟩ := ih hr
-    rw [ho] at herr; simp at herr
-  | case8 i es st rp hv fuel' st1 blk hfind o2 st2 hch e hpop ih =>
-    intro h
-    have := stack_balanced doc ctx _ _ _ _ _ hch
-    subst this
-    simp [State.pop, st1, State.push] at hpop
-  | case9 i es st rp hv fuel' st1 o1 blk hfind o2 st2 hch st3 hpop out st4 hrest ih1 ih2 =>
-    intro h
-    have h2 := stack_balanced doc ctx _ _ _ _ _ hch
-    subst h2
-    simp [State.pop, st1, State.push] at hpop
-    subst hpop
-    have h4 := stack_balanced doc ctx _ _ _ _ _ hrest
-    subst h4
-    exact ⟨_, rfl⟩
-  | case10 i es st rp hv fuel' st1 blk hfind o2 st2 hch st3 hpop e herr ih1 ih2 =>
-    intro h; simp [reach, hfind] at h
-    have h2 := stack_balanced doc ctx _ _ _ _ _ hch
-    subst h2
-    simp [State.pop, st1, State.push] at hpop
-    subst hpop
-    obtain ⟨o, ho⟩ := ih2 h.2
-    rw [ho] at herr; simp at herr
-  | case11 fuel i es st rp hv ih =>
-    intro h
-    apply ih
-    cases fuel with
-    | zero => simp [reach] at h
-    | succ n =>
-      simp only [reach] at h
+/-- `Insert.transform(m)` raises `InsertTransformationError` (and `virtual_block_reference_entities` takes the explode
+    fall-back, finding F20) exactly when the images of the reference's axes are non-zero and NOT orthogonal -/
+theorem fallback_iff_not_orthogonal (m : Aff) (i : Ins) :
+    transformIns m i = .error .fallback ↔
+      (dot (m.lin (ocsFlip i.flip i.dir)) (m.lin (ocsFlip i.flip i.dir)) ≠ 0 ∧
+       dot (m.lin (ocsFlip i.flip ⟨-i.dir.y, i.dir.x⟩)) (m.lin (ocsFlip i.flip ⟨-i.dir.y, i.dir.x⟩)) ≠ 0 ∧
+       dot (m.lin (ocsFlip i.flip i.dir)) (m.lin (ocsFlip i.flip ⟨-i.dir.y, i.dir.x⟩)) ≠ 0) := by
+  simp only [transformIns]
+  constructor
+  · intro h
+    split at h
+    · simp at h
+    · rename_i hz
       split at h
-      · simp at h
-      · simp at h; exact h.2
+      · rename_i hd
+        exact ⟨fun h0 => hz (Or.inl h0), fun h0 => hz (Or.inr h0), hd⟩
+      · split at h <;> simp at h
+  · rintro ⟨h1, h2, h3⟩
+    simp [h1, h2, h3]
 
-/-! ## `Insert.transform` is lawful (after fix 603b8b3fe)
+/-- what the fall-back does (finding F20, modelled as the code is): the sheared reference is replaced by the content of the
+    referenced block - for every grid element, transformed by the element's matrix and then by `m` - and never reaches
+    `draw_entity`: no `push_state` for it, its ATTRIBs are not drawn, its invisible flag is not looked at -/
+theorem fallback_explodes_in_place (doc : Doc) (f : Nat) (m : Aff) (i : Ins) (h : transformIns m i = .error .fallback) :
+    transformOne doc (some (explode doc f)) m (.ins i) =
+      flatMapE (fun c =>
+        match vbreWith doc (explode doc f) c with
+        | .error e => .error e
+        | .ok inner => explode doc f m inner) (cells i) := by
+  simp only [transformOne, h]
+  rfl
 
-`Insert.transform(m)` gives the INSERT with matrix `matrix44() @ m` for every axis-monomial `m` (any composition of
-translations, non-zero axis scalings, mirrors, quarter turns) and every reference rotated by a multiple of 90°. -/
+/-- GEOMETRY in the explode fall-back (the part of finding F20 that is right): a sheared reference to a block of leaf entities
+    is replaced, for every grid element, by the block's entities mapped by the PRODUCT `matrix44(element) @ m` - exactly the
+    points the specification lists for them (`Spec.flatten` maps leaf points by the same product); what is lost is the
+    reference's state, not the geometry -/
+theorem fallback_geometry (doc : Doc) (f : Nat) (m : Aff) (i : Ins) (blk : Block)
+    (hfb : transformIns m i = .error .fallback) (hfind : doc.find i.name = some blk)
+    (hleaf : (blockCopies blk).all isLeaf = true) :
+    transformOne doc (some (explode doc f)) m (.ins i) =
+      .ok ((cells i).flatMap (fun c => mapLeaves ((xfOf c blk.base).comp m) (blockCopies blk))) :=
+  EzdxfVerif.Render.fallback_geometry doc f m i blk hfb hfind hleaf
 
+/-- without a sheared reference `virtual_block_reference_entities` is the plain element-wise `entity.transform(m)` -/
+theorem explode_plain (doc : Doc) (f : Nat) (m : Aff) (src ents : List Ent) (h : mapE (transformEnt m) src = .ok ents) :
+    explode doc f m src = .ok ents :=
+  explode_of_mapE doc f m src ents h
+
+/-- quarter-turn class: `Insert.transform(m)` gives the INSERT with matrix `matrix44() @ m` for every axis-monomial `m` (any
+    composition of translations, non-zero axis scalings, mirrors, quarter turns) and every reference rotated by a
+    multiple of 90° -/
 theorem transformIns_lawful (m : Aff) (i : Ins) (base : P2) (hm : Monomial m) (hdir : AxisUnit i.dir) :
     lawful m i base = true := by
-  obtain ⟨a, b, c, d, tx, ty⟩ := m
-  simp only [lawful, decide_eq_true_eq]
-  rcases hm with ⟨hb, hc, ha, hd⟩ | ⟨ha, hd, hb, hc⟩ <;> simp only at ha hb hc hd
-  · subst hb hc
-    rcases lt_or_gt_of_ne ha with ha' | ha' <;> rcases lt_or_gt_of_ne hd with hd' | hd' <;>
-    rcases hdir with hdir | hdir | hdir | hdir <;> cases hf : i.flip <;>
-    simp [xfOf, transformIns, Aff.comp, Aff.lin, Aff.apply, mag, unit, rabs, exSign, ocsFlip, hdir, hf,
-      le_of_lt, not_le.mpr, ha', hd', ha, hd] <;> norm_num <;> (refine ⟨?_, ?_, ?_, ?_⟩ <;> ring)
-  · subst ha hd
-    rcases lt_or_gt_of_ne hb with hb' | hb' <;> rcases lt_or_gt_of_ne hc with hc' | hc' <;>
-    rcases hdir with hdir | hdir | hdir | hdir <;> cases hf : i.flip <;>
-    simp [xfOf, transformIns, Aff.comp, Aff.lin, Aff.apply, mag, unit, rabs, exSign, ocsFlip, hdir, hf,
-      le_of_lt, not_le.mpr, hb', hc', hb, hc] <;> norm_num <;> (refine ⟨?_, ?_, ?_, ?_⟩ <;> ring)
+  obtain ⟨i', hi'⟩ := transformIns_ok_quarter m i hm hdir
+  simp [lawful, hi', transformIns_ok_matrix m i i' base hi']
 
+/-- uniform class: the same for every similarity `m` (translations, ANY rotations, uniform scalings, mirrors) and every
+    rotation of the reference -/
+theorem transformIns_lawful_similarity (m : Aff) (k : Rat) (i : Ins) (base : P2) (hm : Similarity m k) (hdir : UnitDir i.dir) :
+    lawful m i base = true := by
+  obtain ⟨i', hi'⟩ := transformIns_ok_similarity m k i hm hdir
+  simp [lawful, hi', transformIns_ok_matrix m i i' base hi']
 
-def p0 : EProps := ⟨"0", 256, none, "BYLAYER", -1, false, none⟩
+def p0 : EProps := ⟨"0", 256, none, "BYLAYER", -1, false, none, 0⟩
 /-- INNER rotated by 90° -/
-def wInner : Ins := ⟨p0, "INNER", ⟨0, 0⟩, 1, 1, ⟨0, 1⟩, false, []⟩
+def wInner : Ins := ⟨p0, "INNER", ⟨0, 0⟩, 1, 1, ⟨0, 1⟩, false, [], 1, 1, 0, 0⟩
 /-- OUTER scaled (2, 1) -/
-def wOuter : Ins := ⟨p0, "OUTER", ⟨0, 0⟩, 2, 1, ⟨1, 0⟩, false, []⟩
+def wOuter : Ins := ⟨p0, "OUTER", ⟨0, 0⟩, 2, 1, ⟨1, 0⟩, false, [], 1, 1, 0, 0⟩
 def wDoc : Doc := ⟨[⟨"INNER", ⟨0, 0⟩, [.leaf .line p0 [⟨0, 0⟩, ⟨1, 0⟩]]⟩, ⟨"OUTER", ⟨0, 0⟩, [.ins wInner]⟩]⟩
 def wCtx : Ctx := mkCtx 0xFFFFFF Gen.RenderTables.aciRgb false [⟨"0", 7, none, none, "Continuous", -3, 0, true⟩]
 
@@ -254,156 +210,141 @@ theorem regression_prefix_transform_unlawful :
     Monomial (xfOf wOuter ⟨0, 0⟩) ∧ AxisUnit wInner.dir ∧
     xfOf (transformInsPreFix (xfOf wOuter ⟨0, 0⟩) wInner) ⟨0, 0⟩ ≠ (xfOf wInner ⟨0, 0⟩).comp (xfOf wOuter ⟨0, 0⟩) ∧
     lawful (xfOf wOuter ⟨0, 0⟩) wInner ⟨0, 0⟩ = true := by
-  refine ⟨?_, ?_, by decide +kernel, by decide +kernel⟩
-  · left; simp [xfOf, wOuter, exSign, Aff.lin, ocsFlip]
-  · right; left; rfl
+  have h1 : Monomial (xfOf wOuter ⟨0, 0⟩) := by left; simp [xfOf, wOuter, exSign, Aff.lin, ocsFlip]
+  have h2 : AxisUnit wInner.dir := by right; left; rfl
+  exact ⟨h1, h2, by decide +kernel, transformIns_lawful _ _ _ h1 h2⟩
 
--- the witness of F18 is now drawn at its world geometry (0,0)-(0,1), and draw = spec on it
+-- the witness of F18 is drawn at its world geometry (0,0)-(0,1), and draw = spec on it
 #guard (drawLayout wDoc wCtx [.ins wOuter]).toOption.map (fun r => r.1.map (·.pts)) = some [[⟨0, 0⟩, ⟨0, 1⟩]]
-#guard (unfold wDoc 3 [.ins wOuter]).map (fun f => (Spec.flatten wCtx none Aff.id f).map (·.pts)) = some [[⟨0, 0⟩, ⟨0, 1⟩]]
+#guard (unfold wDoc 3 [.ins wOuter]).map (fun f => (Spec.flatten wCtx none Aff.id 0 f).map (·.pts)) = some [[⟨0, 0⟩, ⟨0, 1⟩]]
 #guard reach wDoc (wDoc.blocks.length + 1) [.ins wOuter]
+#guard (unfold wDoc 3 [.ins wOuter]).map (fun f => f.lawful Aff.id) = some true
 
-/-! ## draw = specification, full strength for the modelled documents
+/-- general rotation: INNER rotated by the 3-4-5 angle below OUTER rotated by the 5-12-13 angle, uniformly scaled by 2 -/
+def gInner : Ins := ⟨p0, "INNER", ⟨1, 0⟩, 1, 1, ⟨3/5, 4/5⟩, false, [], 1, 1, 0, 0⟩
+def gOuter : Ins := ⟨p0, "OUTER", ⟨0, 0⟩, 2, -2, ⟨5/13, 12/13⟩, false, [], 1, 1, 0, 0⟩
+def gDoc : Doc := ⟨[⟨"INNER", ⟨0, 0⟩, [.leaf .line p0 [⟨0, 0⟩, ⟨5, 0⟩]]⟩, ⟨"OUTER", ⟨0, 0⟩, [.ins gInner]⟩]⟩
+#guard (unfold gDoc 3 [.ins gOuter]).map (fun f => f.lawful Aff.id) = some true
+#guard (drawLayout gDoc wCtx [.ins gOuter]).toOption.map (fun r => r.1.map (·.pts)) =
+  (unfold gDoc 3 [.ins gOuter]).map (fun f => (Spec.flatten wCtx none Aff.id 0 f).map (·.pts))
+/-- the F20 shape: INNER (red, its content BYBLOCK) rotated by the 3-4-5 angle below a NON-uniformly scaled OUTER (green): the
+    block tree is not lawful, the code takes the explode fall-back (`transformOne`): geometry as specified, but the line is
+    drawn in the colour of OUTER (pen 3) where the document defines the colour of INNER (pen 1) -/
+def fInner : Ins := ⟨{ p0 with color := 1 }, "INNER", ⟨1, 0⟩, 1, 1, ⟨3/5, 4/5⟩, false, [], 1, 1, 0, 0⟩
+def fDoc : Doc := ⟨[⟨"INNER", ⟨0, 0⟩, [.leaf .line { p0 with color := 0 } [⟨0, 0⟩, ⟨5, 0⟩]]⟩, ⟨"OUTER", ⟨0, 0⟩, [.ins fInner]⟩]⟩
+def sOuter : Ins := ⟨{ p0 with color := 3 }, "OUTER", ⟨0, 0⟩, 2, 1, ⟨1, 0⟩, false, [], 1, 1, 0, 0⟩
+#guard (unfold fDoc 3 [.ins sOuter]).map (fun f => f.lawful Aff.id) = some false
+#guard (drawLayout fDoc wCtx [.ins sOuter]).toOption.map (fun r => r.1.map (fun pr => (pr.pen, pr.pts))) = some [(3, [⟨2, 0⟩, ⟨8, 4⟩])]
+#guard (unfold fDoc 3 [.ins sOuter]).map (fun f => (Spec.flatten wCtx none Aff.id 0 f).map (fun pr => (pr.pen, pr.pts))) =
+  some [(1, [⟨2, 0⟩, ⟨8, 4⟩])]
+-- non-vacuity of `fallback_geometry`: the F20 witness (INNER is a block of one LINE; sheared below OUTER = scale (2, 1))
+#guard (transformIns (xfOf sOuter ⟨0, 0⟩) fInner) = .error .fallback
+#guard (blockCopies ⟨"INNER", ⟨0, 0⟩, [.leaf .line { p0 with color := 0 } [⟨0, 0⟩, ⟨5, 0⟩]]⟩).all isLeaf
 
-Hypotheses that remain and why:
-  * `DocQuarter` / `EntsQuarter`: every reference is rotated by a multiple of 90° (the model's norm `|x|+|y|` is the
-    Euclidean norm only for axis-aligned vectors; for general angles the composed matrix of a rotated reference under a
-    non-uniform scale is a shear, which the code handles by the explode fall-back that is outside the model) and has
-    non-zero scale factors (`InsertCoordinateSystem.transform` normalises the transformed axes, a zero scale makes that a
-    division by zero);
-  * `reach`: the block graph is acyclic and closed (otherwise the front end raises, see `draw_total`).
-No uniformity / "unrotated" hypothesis is left. -/
+/-- MINSERT: a 2 x 3 grid of OUTER (quarter turn, non-uniform) -/
+def mOuter : Ins := ⟨p0, "OUTER", ⟨1, 1⟩, 2, 1, ⟨0, 1⟩, false, [], 2, 3, 5, 7⟩
+#guard (cells mOuter).length = 6
+#guard (unfold wDoc 3 [.ins mOuter]).map (fun f => f.lawful Aff.id) = some true
+#guard (drawLayout wDoc wCtx [.ins mOuter]).toOption.map (fun r => r.1.length) = some 6
 
-private theorem xfOf_monomial (i : Ins) (base : P2) (h : InsQuarter i) : Monomial (xfOf i base) := by
-  obtain ⟨hd, hsx, hsy⟩ := h
-  rcases hd with hd | hd | hd | hd <;> cases hf : i.flip <;>
-  simp [xfOf, Monomial, exSign, Aff.lin, ocsFlip, hd, hf, hsx, hsy]
+/-! ## draw = specification
 
-private theorem comp_monomial (f g : Aff) (hf : Monomial f) (hg : Monomial g) : Monomial (f.comp g) := by
-  obtain ⟨fa, fb, fc, fd, ftx, fty⟩ := f
-  obtain ⟨ga, gb, gc, gd, gtx, gty⟩ := g
-  rcases hf with ⟨h1, h2, h3, h4⟩ | ⟨h1, h2, h3, h4⟩ <;> rcases hg with ⟨k1, k2, k3, k4⟩ | ⟨k1, k2, k3, k4⟩ <;>
-  simp only at h1 h2 h3 h4 k1 k2 k3 k4 <;> subst h1 h2 k1 k2 <;>
-  simp [Aff.comp, Monomial, h3, h4, k3, k4]
+General form (session 3): the only hypothesis about transformations is `Forest.lawful` — a decidable check that
+`Insert.transform` is lawful at every reference of the block tree under the matrix accumulated on the way to it, i.e. that
+the code never takes the explode fall-back (finding F20).  Any rotation (rational cos/sin), any scale factors, mirrors,
+extrusion ±Z, MINSERT grids, entity handles.  Two classes of documents are proved to satisfy the check outright:
+quarter-turn documents (`draw_eq_spec_quarter`, the session-2 theorem) and uniformly scaled documents with arbitrary
+rotations (`draw_eq_spec_uniform`).  `reach`: the block graph is acyclic and closed (otherwise the front end raises). -/
 
-private theorem find_mem (doc : Doc) (name : String) (blk : Block) (h : doc.find name = some blk) : blk ∈ doc.blocks :=
-  List.mem_of_find?_eq_some h
-
-/-- General form (any nesting depth, any accumulated axis-monomial transformation `m`, any state): the stateful
-    traversal with in-place transformed copies, `Insert.transform` on nested references and push/pop of the block reference
-    state returns exactly `Spec.flatten` of the block tree under `m`, and the state it started with. -/
-theorem draw_eq_spec_tree (doc : Doc) (ctx : Ctx) (hd : DocQuarter doc) (fuel : Nat) (ents : List Ent) :
-    ∀ (m : Aff) (forest : Forest) (st : State), Monomial m → EntsQuarter ents → unfold doc fuel ents = some forest →
-      drawEnts doc ctx fuel (ents.map (transformEnt m)) st = .ok (Spec.flatten ctx st.current m forest, st) := by
-  fun_induction unfold doc fuel ents with
-  | case1 fuel =>
-    intro m forest st _ _ h
-    simp at h; subst h
-    simp [drawEnts, Spec.flatten]
-  | case2 fuel k p pts es rest hrest ih =>
-    intro m forest st hm he h
-    simp at h; subst h
-    have he' : EntsQuarter es := fun i hi => he i (List.mem_cons_of_mem _ hi)
-    simp only [List.map_cons, transformEnt, drawEnts.eq_2, Spec.flatten, ih m rest st hm he' hrest]
-    split <;> simp
-  | case3 fuel k p pts es hrest ih => intro m forest st _ _ h; simp at h
-  | case4 i tail => intro m forest st _ _ h; simp at h
-  | case5 fuel' i es hfind => intro m forest st _ _ h; simp at h
-  | case6 fuel' i es blk hfind hch ih => intro m forest st _ _ h; simp at h
-  | case7 fuel' i es blk hfind ch hch rest hrest ih1 ih2 =>
-    intro m forest st hm he h
-    simp at h; subst h
-    have hi : InsQuarter i := he i List.mem_cons_self
-    have he' : EntsQuarter es := fun j hj => he j (List.mem_cons_of_mem _ hj)
-    have hl : xfOf (transformIns m i) blk.base = (xfOf i blk.base).comp m := by
-      simpa [lawful] using transformIns_lawful m i blk.base hm hi.1
-    have hm' : Monomial ((xfOf i blk.base).comp m) := comp_monomial _ _ (xfOf_monomial i blk.base hi) hm
-    have hb : EntsQuarter (blk.ents.filter (fun e => !isAttdef e)) :=
-      fun j hj => hd blk (find_mem doc _ _ hfind) j (List.mem_of_mem_filter hj)
-    have hname : (transformIns m i).name = i.name := rfl
-    have hprops : (transformIns m i).props = i.props := rfl
-    have hatt : (transformIns m i).attribs = i.attribs.map (transformAttrib m) := rfl
-    simp only [List.map_cons, transformEnt, drawEnts.eq_4, hname, hprops, hatt, hfind, hl, virtualEntities,
-      Spec.flatten, Spec.mapAttribs]
-    split
-    · have := ih1 ((xfOf i blk.base).comp m) ch (st.push (resolveAll ctx st.current true false i.props)) hm' hb hch
-      simp only [this]
-      simp [State.pop, State.push, ih2 m rest st hm he' hrest]
-    · simp [ih2 m rest st hm he' hrest]
-  | case8 fuel' i es blk hfind ch hch hrest ih1 ih2 => intro m forest st _ _ h; simp at h
+/-- General form (any nesting depth, any accumulated matrix `m`, any state, any current handle): if `Insert.transform` is
+    lawful along the block tree, the transformed copies exist and the stateful traversal (in-place transformed copies,
+    `Insert.transform` on nested references, push/pop of the block reference state, MINSERT expansion, handle propagation)
+    returns exactly `Spec.flatten` of the block tree under `m`, and the state it started with. -/
+theorem draw_eq_spec_tree (doc : Doc) (ctx : Ctx) (fuel : Nat) (ents : List Ent) (m : Aff) (forest : Forest)
+    (hu : unfold doc fuel ents = some forest) (hl : forest.lawful m = true) :
+    ∃ ents', mapE (transformEnt m) ents = .ok ents' ∧
+      ∀ h st, drawEnts doc ctx fuel h ents' st = .ok (Spec.flatten ctx st.current m h forest, st) :=
+  EzdxfVerif.Render.draw_eq_spec_tree doc ctx fuel ents m forest hu hl
 
 /-- the block tree exists for every acyclic, closed document -/
 theorem unfold_of_reach (doc : Doc) (fuel : Nat) (ents : List Ent) :
-    reach doc fuel ents = true → ∃ f, unfold doc fuel ents = some f := by
-  fun_induction unfold doc fuel ents with
-  | case1 fuel => intro _; exact ⟨_, rfl⟩
-  | case2 fuel k p pts es rest hrest ih => intro _; exact ⟨_, rfl⟩
-  | case3 fuel k p pts es hrest ih =>
-    intro hr; simp [reach] at hr
-    obtain ⟨f, hf⟩ := ih hr
-    rw [hf] at hrest; simp at hrest
-  | case4 i tail => intro hr; simp [reach] at hr
-  | case5 fuel' i es hfind => intro hr; simp [reach, hfind] at hr
-  | case6 fuel' i es blk hfind hch ih =>
-    intro hr; simp [reach, hfind] at hr
-    obtain ⟨f, hf⟩ := ih (reach_filter doc _ _ _ hr.1)
-    rw [hf] at hch; simp at hch
-  | case7 fuel' i es blk hfind ch hch rest hrest ih1 ih2 => intro _; exact ⟨_, rfl⟩
-  | case8 fuel' i es blk hfind ch hch hrest ih1 ih2 =>
-    intro hr; simp [reach, hfind] at hr
-    obtain ⟨f, hf⟩ := ih2 hr.2
-    rw [hf] at hrest; simp at hrest
+    reach doc fuel ents = true → ∃ f, unfold doc fuel ents = some f :=
+  EzdxfVerif.Render.unfold_of_reach doc fuel ents
 
-private theorem transformAttrib_id (a : Attrib) : transformAttrib Aff.id a = a := by
-  cases a; simp [transformAttrib, Aff.apply, Aff.id]
-
-private theorem map_transformAttrib_id (as : List Attrib) : as.map (transformAttrib Aff.id) = as := by
-  induction as with
-  | nil => rfl
-  | cons a as ih => simp [transformAttrib_id, ih]
-
-private theorem transformIns_id (i : Ins) (h : AxisUnit i.dir) : transformIns Aff.id i = i := by
-  obtain ⟨props, name, pos, sx, sy, dir, flip, attribs⟩ := i
-  simp only at h
-  rcases h with h | h | h | h <;> cases flip <;> subst h <;>
-  simp only [transformIns, map_transformAttrib_id] <;>
-  simp [Aff.id, Aff.lin, Aff.apply, mag, unit, rabs, exSign, ocsFlip] <;> norm_num
-
-private theorem apply_id (q : P2) : Aff.id.apply q = q := by cases q; simp [Aff.apply, Aff.id]
-
-private theorem map_apply_id (pts : List P2) : pts.map Aff.id.apply = pts := by
-  induction pts with
-  | nil => rfl
-  | cons q qs ih => rw [List.map_cons, ih, apply_id]
-
-private theorem map_transformEnt_id (ents : List Ent) (h : ∀ i, Ent.ins i ∈ ents → AxisUnit i.dir) :
-    ents.map (transformEnt Aff.id) = ents := by
-  induction ents with
-  | nil => rfl
-  | cons e es ih =>
-    have hes : ∀ i, Ent.ins i ∈ es → AxisUnit i.dir := fun i hi => h i (List.mem_cons_of_mem _ hi)
-    rw [List.map_cons, ih hes]
-    cases e with
-    | leaf k p pts => simp [transformEnt, map_apply_id]
-    | ins i => simp [transformEnt, transformIns_id i (h i List.mem_cons_self)]
-
-
-/-- For every acyclic, closed document whose block references are rotated by multiples of 90° with non-zero (possibly
-    non-uniform, possibly negative) scale factors, at every nesting depth: `draw_layout` sends exactly `Spec.flatten` of the
-    block tree to the backend and leaves the block reference state stack as it found it. -/
-theorem draw_eq_spec (doc : Doc) (ctx : Ctx) (ents : List Ent) (hd : DocQuarter doc) (he : EntsQuarter ents)
-    (hr : reach doc (doc.blocks.length + 1) ents = true) :
+/-- `draw_layout` sends exactly `Spec.flatten` of the block tree to the backend and leaves the block reference state
+    stack as it found it: for every acyclic closed document, well-formed layout references (unit direction, non-zero
+    scales) and lawful block tree. -/
+theorem draw_eq_spec (doc : Doc) (ctx : Ctx) (ents : List Ent) (he : EntsWF ents)
+    (hr : reach doc (doc.blocks.length + 1) ents = true)
+    (hl : ∀ forest, unfold doc (doc.blocks.length + 1) ents = some forest → forest.lawful Aff.id = true) :
     ∃ forest, unfold doc (doc.blocks.length + 1) ents = some forest ∧
-      drawLayout doc ctx ents = .ok (Spec.flatten ctx none Aff.id forest, State.init) := by
-  have hm : Monomial Aff.id := Or.inl ⟨rfl, rfl, by simp [Aff.id], by simp [Aff.id]⟩
+      drawLayout doc ctx ents = .ok (Spec.flatten ctx none Aff.id 0 forest, State.init) := by
   obtain ⟨f, hf⟩ := unfold_of_reach doc _ ents hr
   refine ⟨f, hf, ?_⟩
-  have := draw_eq_spec_tree doc ctx hd _ ents Aff.id f State.init hm he hf
-  rw [map_transformEnt_id ents (fun i hi => (he i hi).1)] at this
-  exact this
+  obtain ⟨ents', hmap, hdraw⟩ := draw_eq_spec_tree doc ctx _ ents Aff.id f hf (hl f hf)
+  rw [mapE_transformEnt_id ents he] at hmap
+  simp only [Except.ok.injEq] at hmap
+  subst hmap
+  exact hdraw 0 State.init
 
-/-- the hypotheses are met by the depth-2 witness of F18 (non-uniform scale above a rotated reference) -/
-example : DocQuarter wDoc ∧ EntsQuarter [.ins wOuter] := by
+private theorem copyIns_quarter (i : Ins) (h : InsQuarter i) : InsQuarter (copyIns i) := h
+private theorem copyIns_uniform (i : Ins) (h : InsUniform i) : InsUniform (copyIns i) := h
+private theorem gridCell_quarter (i : Ins) (off : P2) (h : InsQuarter i) : InsQuarter (gridCell i off) := h
+private theorem gridCell_uniform (i : Ins) (off : P2) (h : InsUniform i) : InsUniform (gridCell i off) := h
+
+/-- MINSERT below any transformation (session 3): for EVERY matrix `m` for which `Insert.transform` does not raise, the grid
+    elements of the transformed reference are the transformed grid elements of the reference - same matrices
+    `matrix44(element) @ m`, same ATTRIBs - so a MINSERT is drawn where the document puts it at every nesting depth
+    (non-zero scale factors; this is the statement that fixes 1240d5ce0 - spacing - and 2b2432f57 - ATTRIBs - make true) -/
+theorem minsert_cells_lawful (m : Aff) (i i' : Ins) (base : P2) (h : transformIns m i = .ok i') (hsx : i.sx ≠ 0) (hsy : i.sy ≠ 0) :
+    cellsAgree m base (cells i') (cells i) = true :=
+  cells_transform m i i' base h hsx hsy
+
+/-- session-2 theorem, now a corollary and extended to MINSERT grids anywhere: every acyclic closed document whose references
+    are rotated by multiples of 90° with non-zero (possibly non-uniform, possibly negative) scale factors -/
+theorem draw_eq_spec_quarter (doc : Doc) (ctx : Ctx) (ents : List Ent) (hd : DocQuarter doc) (he : EntsQuarter ents)
+    (hr : reach doc (doc.blocks.length + 1) ents = true) :
+    ∃ forest, unfold doc (doc.blocks.length + 1) ents = some forest ∧
+      drawLayout doc ctx ents = .ok (Spec.flatten ctx none Aff.id 0 forest, State.init) := by
+  refine draw_eq_spec doc ctx ents ?_ hr ?_
+  · intro i hi
+    obtain ⟨h1, h2, h3⟩ := he i hi
+    refine ⟨?_, h2, h3⟩
+    rcases h1 with h | h | h | h <;> simp [UnitDir, h]
+  · intro forest hf
+    exact lawful_of_class Monomial InsQuarter
+      (fun m i hm hi => transformIns_ok_quarter m i hm hi.1)
+      (fun m i base hm hi => monomial_comp _ _ (monomial_xfOf i base hi) hm)
+      copyIns_quarter gridCell_quarter (fun i hi => ⟨hi.2.1, hi.2.2⟩)
+      doc (fun b hb i hi => hd b hb i hi) _ ents Aff.id forest monomial_id he hf
+
+/-- NEW class (session 3): every acyclic closed document whose references have `|xscale| = |yscale| ≠ 0` (mirrors allowed)
+    and ANY rotation with rational (cos, sin), MINSERT grids included, at every nesting depth -/
+theorem draw_eq_spec_uniform (doc : Doc) (ctx : Ctx) (ents : List Ent) (hd : DocUniform doc) (he : EntsUniform ents)
+    (hr : reach doc (doc.blocks.length + 1) ents = true) :
+    ∃ forest, unfold doc (doc.blocks.length + 1) ents = some forest ∧
+      drawLayout doc ctx ents = .ok (Spec.flatten ctx none Aff.id 0 forest, State.init) := by
+  have hnz : ∀ i, InsUniform i → i.sx ≠ 0 ∧ i.sy ≠ 0 := by
+    intro i ⟨_, h2, h3⟩
+    refine ⟨h2, ?_⟩
+    rcases h3 with h | h <;> rw [h]
+    · exact h2
+    · exact neg_ne_zero.mpr h2
+  refine draw_eq_spec doc ctx ents ?_ hr ?_
+  · intro i hi
+    exact ⟨(he i hi).1, (hnz i (he i hi)).1, (hnz i (he i hi)).2⟩
+  · intro forest hf
+    exact lawful_of_class (fun m => ∃ k, Similarity m k) InsUniform
+      (fun m i hm hi => by obtain ⟨k, hk⟩ := hm; exact transformIns_ok_similarity m k i hk hi.1)
+      (fun m i base hm hi => by
+        obtain ⟨k, hk⟩ := hm
+        exact ⟨_, similarity_comp _ _ _ _ (similarity_xfOf i base hi) hk⟩)
+      copyIns_uniform gridCell_uniform hnz
+      doc (fun b hb i hi => hd b hb i hi) _ ents Aff.id forest ⟨1, similarity_id⟩ he hf
+
+/-- the hypotheses of `draw_eq_spec_quarter` are met by the depth-2 witness of F18 (non-uniform scale above a rotated
+    reference) and by a MINSERT of it -/
+example : DocQuarter wDoc ∧ EntsQuarter [.ins wOuter, .ins mOuter] := by
   refine ⟨?_, ?_⟩
   · intro b hb i hi
     simp [wDoc] at hb
@@ -411,22 +352,78 @@ example : DocQuarter wDoc ∧ EntsQuarter [.ins wOuter] := by
     subst hi
     exact ⟨Or.inr (Or.inl rfl), by simp [wInner], by simp [wInner]⟩
   · intro i hi
+    simp at hi
+    rcases hi with rfl | rfl
+    · exact ⟨Or.inl rfl, by simp [wOuter], by simp [wOuter]⟩
+    · exact ⟨Or.inr (Or.inl rfl), by simp [mOuter], by simp [mOuter]⟩
+
+/-- the hypotheses of `draw_eq_spec_uniform` are met by the general-angle witness (3-4-5 below 5-12-13, mirrored) -/
+example : DocUniform gDoc ∧ EntsUniform [.ins gOuter] := by
+  refine ⟨?_, ?_⟩
+  · intro b hb i hi
+    simp [gDoc] at hb
+    rcases hb with rfl | rfl <;> simp at hi
+    subst hi
+    exact ⟨by simp [UnitDir, gInner]; norm_num, by simp [gInner], by simp [gInner]⟩
+  · intro i hi
     simp at hi; subst hi
-    exact ⟨Or.inl rfl, by simp [wOuter], by simp [wOuter]⟩
+    exact ⟨by simp [UnitDir, gOuter]; norm_num, by simp [gOuter], by simp [gOuter]⟩
+
+/-! ## totality -/
+
+/-- no error constructor is reachable for an acyclic closed document with a lawful block tree; the state is restored -/
+theorem draw_total (doc : Doc) (ctx : Ctx) (fuel h : Nat) (ents : List Ent) (st : State) (he : EntsWF ents)
+    (hr : reach doc fuel ents = true)
+    (hl : ∀ forest, unfold doc fuel ents = some forest → forest.lawful Aff.id = true) :
+    ∃ out, drawEnts doc ctx fuel h ents st = .ok (out, st) := by
+  obtain ⟨f, hf⟩ := unfold_of_reach doc _ ents hr
+  obtain ⟨ents', hmap, hdraw⟩ := draw_eq_spec_tree doc ctx _ ents Aff.id f hf (hl f hf)
+  rw [mapE_transformEnt_id ents he] at hmap
+  simp only [Except.ok.injEq] at hmap
+  subst hmap
+  exact ⟨_, hdraw h st⟩
+
+/-- TOTALITY at full generality of the model (session 3): for an acyclic closed document the traversal never ends in
+    RecursionError, DXFStructureError or IndexError - with or without MINSERT, for every rotation and every scale factors, ALSO when
+    nested references are sheared and the explode fall-back is taken (no lawfulness hypothesis).  The only other outcomes are
+    the two "outside the number field of the model" markers (`Outside`: irrational length, zero length axis), which are not
+    exceptions of the code. -/
+theorem draw_never_raises (doc : Doc) (ctx : Ctx) (fuel h : Nat) (ents : List Ent) (st : State)
+    (hr : reach doc fuel ents = true) : ∀ e, drawEnts doc ctx fuel h ents st = .error e → Outside e :=
+  EzdxfVerif.Render.draw_never_raises doc ctx fuel h ents st hr
+
+/-- `virtual_block_reference_entities` with its explode fall-back never raises for an acyclic closed block graph, and what
+    it yields is acyclic and closed again -/
+theorem explode_never_raises (doc : Doc) (f : Nat) (m : Aff) (ents : List Ent) (hr : reach doc f ents = true) :
+    match explode doc f m ents with
+    | .ok out => reach doc f out = true
+    | .error e => Outside e :=
+  explode_good doc f m ents hr
+
+-- non-vacuity: the F20 witness is acyclic and closed, and drawn without an error although its block tree is not lawful
+#guard reach fDoc (fDoc.blocks.length + 1) [.ins sOuter]
+#guard (drawLayout fDoc wCtx [.ins sOuter]).toOption.isSome
 
 /-- reading of the specification at depth 2: properties are inherited down the chain of references, the point is mapped
-    by the innermost reference first -/
+    by the innermost reference first, the primitive carries the handle of the top level reference -/
 theorem spec_depth2_geometry (ctx : Ctx) (i j : Ins) (bi bj : P2) (p : EProps) (a b : P2)
-    (hi : i.attribs = []) (hj : j.attribs = [])
+    (hi : i.attribs = []) (hj : j.attribs = []) (pi : Plain i) (pj : Plain j) (hp : p.handle = 0) (hjh : j.props.handle = 0)
     (vi : (resolveAll ctx none true false i.props).visible = true)
     (vj : (resolveAll ctx (some (resolveAll ctx none true false i.props)) true false j.props).visible = true)
     (vp : (resolveAll ctx (some (resolveAll ctx (some (resolveAll ctx none true false i.props)) true false j.props))
             false false p).visible = true) :
-    Spec.flatten ctx none Aff.id (.cons (.node i bi (.cons (.node j bj (.cons (.leaf .line p [a, b]) .nil)) .nil)) .nil) =
+    Spec.flatten ctx none Aff.id 0 (.cons (.node i bi (.cons (.node j bj (.cons (.leaf .line p [a, b]) .nil)) .nil)) .nil) =
       [mkPrim .line
         (resolveAll ctx (some (resolveAll ctx (some (resolveAll ctx none true false i.props)) true false j.props)) false false p)
+        i.props.handle
         [(xfOf i bi).apply ((xfOf j bj).apply a), (xfOf i bi).apply ((xfOf j bj).apply b)]] := by
-  simp [Spec.flatten, vi, vj, vp, hi, hj, drawAttribs, Spec.mapAttribs, emitLeaf, apply_comp, (comp_id _).1]
+  have hh : hOf i.props 0 = i.props.handle := by
+    simp only [hOf]; split
+    · rename_i h0; exact h0.symm
+    · rfl
+  simp [Spec.flatten, Spec.cellsPrims, cells_plain i pi, cells_plain j pj, vi, vj, vp, hi, hj, drawAttribs, Spec.mapAttribs,
+    emitLeaf, apply_comp, (comp_id _).1, hh]
+  simp [hOf, hp, hjh]
 
 /-! ## decision logic of resolve_* -/
 
@@ -478,38 +475,41 @@ theorem linetype_rules (cur : Option RProps) (e : EProps) (lp : LayerProps) :
   simp only [resolveLinetype, h, if_neg this, if_true]
   cases cur <;> rfl
 
-theorem lineweight_rules (cur : Option RProps) (e : EProps) (lp : LayerProps) :
-    (1 / 100 ≤ resolveLineweight cur e lp) ∧
-    (1 ≤ e.lineweight → resolveLineweight cur e lp = (e.lineweight : Rat) / 100) ∧
-    (e.lineweight = -1 → 1 / 100 < lp.lineweight → resolveLineweight cur e lp = lp.lineweight) ∧
-    (e.lineweight = -2 → ∀ c, cur = some c → 1 / 100 < c.lineweight → resolveLineweight cur e lp = c.lineweight) ∧
-    (e.lineweight = -2 → cur = none → resolveLineweight cur e lp = 1 / 4) ∧
-    (e.lineweight = -3 → resolveLineweight cur e lp = 1 / 4) := by
+/-- rules of `resolve_lineweight` when the plot style table does not override the lineweight of the entity's ACI
+    (`hctb`; always the case for the default table, see `tie_plot_styles`); the override itself: `lineweight_ctb_override` -/
+theorem lineweight_rules (ctx : Ctx) (cur : Option RProps) (e : EProps) (lp : LayerProps)
+    (hctb : ctbLineweight ctx e.color = none) :
+    (1 / 100 ≤ resolveLineweight ctx cur e lp) ∧
+    (1 ≤ e.lineweight → resolveLineweight ctx cur e lp = (e.lineweight : Rat) / 100) ∧
+    (e.lineweight = -1 → 1 / 100 < lp.lineweight → resolveLineweight ctx cur e lp = lp.lineweight) ∧
+    (e.lineweight = -2 → ∀ c, cur = some c → 1 / 100 < c.lineweight → resolveLineweight ctx cur e lp = c.lineweight) ∧
+    (e.lineweight = -2 → cur = none → resolveLineweight ctx cur e lp = 1 / 4) ∧
+    (e.lineweight = -3 → resolveLineweight ctx cur e lp = 1 / 4) := by
   have key : ∀ lw : Rat, (1 / 100 : Rat) ≤ (if (1 / 100 : Rat) < lw then lw else 1 / 100) := by
     intro lw; split_ifs with h
     · exact le_of_lt h
     · exact le_refl _
   have inv : (100 : Rat)⁻¹ = 1 / 100 := by norm_num
   refine ⟨?_, ?_, ?_, ?_, ?_, ?_⟩
-  · simp only [resolveLineweight, minLineweight]; exact key _
+  · simp only [resolveLineweight, hctb, minLineweight]; exact key _
   · intro h
     have h1 : e.lineweight ≠ -1 := by omega
     have h2 : e.lineweight ≠ -2 := by omega
     have h3 : e.lineweight ≠ -3 := by omega
     have : (1 : Rat) ≤ (e.lineweight : Rat) := by exact_mod_cast h
-    simp [resolveLineweight, LINEWEIGHT_BYLAYER, LINEWEIGHT_BYBLOCK, LINEWEIGHT_DEFAULT, h1, h2, h3, minLineweight]
+    simp [resolveLineweight, hctb, LINEWEIGHT_BYLAYER, LINEWEIGHT_BYBLOCK, LINEWEIGHT_DEFAULT, h1, h2, h3, minLineweight]
     intro hle; rw [inv] at *; linarith
   · intro h hlp
-    simp [resolveLineweight, LINEWEIGHT_BYLAYER, h, minLineweight]
+    simp [resolveLineweight, hctb, LINEWEIGHT_BYLAYER, h, minLineweight]
     intro hle; rw [inv] at *; linarith
   · intro h c hc hlw
-    simp [resolveLineweight, LINEWEIGHT_BYLAYER, LINEWEIGHT_BYBLOCK, h, hc, minLineweight]
+    simp [resolveLineweight, hctb, LINEWEIGHT_BYLAYER, LINEWEIGHT_BYBLOCK, h, hc, minLineweight]
     intro hle; rw [inv] at *; linarith
   · intro h hc
-    simp [resolveLineweight, LINEWEIGHT_BYLAYER, LINEWEIGHT_BYBLOCK, h, hc, minLineweight, defaultLineweight]
+    simp [resolveLineweight, hctb, LINEWEIGHT_BYLAYER, LINEWEIGHT_BYBLOCK, h, hc, minLineweight, defaultLineweight]
     norm_num
   · intro h
-    simp [resolveLineweight, LINEWEIGHT_BYLAYER, LINEWEIGHT_BYBLOCK, LINEWEIGHT_DEFAULT, h, minLineweight, defaultLineweight]
+    simp [resolveLineweight, hctb, LINEWEIGHT_BYLAYER, LINEWEIGHT_BYBLOCK, LINEWEIGHT_DEFAULT, h, minLineweight, defaultLineweight]
     norm_num
 
 /-- INSERT visibility depends on the invisible flag only -/
@@ -533,21 +533,298 @@ theorem layer_visible_iff (fg : Nat) (aci : List Nat) (ex : Bool) (l : RawLayer)
   cases ex <;> simp [resolveLayerProps, FROZEN]
   all_goals tauto
 
-/-- invisible / hidden entities emit nothing and leave the state alone -/
-theorem invisible_nothing (doc : Doc) (ctx : Ctx) (fuel : Nat) (es : List Ent) (st : State) :
-    (∀ k p pts, (resolveAll ctx st.current false false p).visible = false →
-      drawEnts doc ctx fuel (.leaf k p pts :: es) st = drawEnts doc ctx fuel es st) ∧
-    (∀ i : Ins, i.props.invisible = true →
-      drawEnts doc ctx fuel (.ins i :: es) st = drawEnts doc ctx fuel es st) := by
+/-- the plot style table overrides the lineweight by the RAW ACI of the entity (BYLAYER/BYBLOCK entities are never
+    overridden, whatever colour they resolve to); the minimum 0.01 mm still applies -/
+theorem lineweight_ctb_override (ctx : Ctx) (cur : Option RProps) (e : EProps) (lp : LayerProps) (w : Rat)
+    (h : ctbLineweight ctx e.color = some w) :
+    resolveLineweight ctx cur e lp = (if 1 / 100 < w then w else 1 / 100) ∧
+    (∀ c : Int, (c = 256 ∨ c = 0 ∨ c = 257) → ctbLineweight ctx c = none) := by
   constructor
-  · intro k p pts h
-    rw [drawEnts.eq_2]; simp [h]
-  · intro i h
+  · simp [resolveLineweight, h, minLineweight]
+  · intro c hc
+    rcases hc with rfl | rfl | rfl <;> simp [ctbLineweight]
+
+/-- invisible / hidden entities emit nothing and leave the state alone -/
+theorem invisible_nothing (doc : Doc) (ctx : Ctx) (fuel h : Nat) (es : List Ent) (st : State) :
+    (∀ k p pts, (resolveAll ctx st.current false false p).visible = false →
+      drawEnts doc ctx fuel h (.leaf k p pts :: es) st = drawEnts doc ctx fuel h es st) ∧
+    (∀ i : Ins, i.props.invisible = true →
+      drawEnts doc ctx fuel h (.ins i :: es) st = drawEnts doc ctx fuel h es st) := by
+  constructor
+  · intro k p pts hv
+    rw [drawEnts_cons]; simp only [drawOne, hv]
+    cases hr : drawEnts doc ctx fuel h es st with
+    | error x => simp [hr]
+    | ok v => obtain ⟨o, s⟩ := v; simp [hr]
+  · intro i hi
     have hv : (resolveAll ctx st.current true false i.props).visible = false := by
-      simp [insert_visibility_ignores_layer, h]
-    cases fuel with
-    | zero => rw [drawEnts.eq_3]; simp [hv]
-    | succ n => rw [drawEnts.eq_4]; simp [hv]
+      simp [insert_visibility_ignores_layer, hi]
+    rw [drawEnts_cons]; simp only [drawOne, hv]
+    cases hr : drawEnts doc ctx fuel h es st with
+    | error x => simp [hr]
+    | ok v => obtain ⟨o, s⟩ := v; simp [hr]
+
+/-! ## the filter pipeline of `draw_layout` / `_draw_entities` -/
+
+/-- `filter_func` acts on the entities of the layout only: an entity it rejects contributes nothing and does not touch the
+    state; block content is never filtered (the nested `draw_entities` calls do not get the filter) -/
+theorem filter_top_level_only (doc : Doc) (ctx : Ctx) (keep : Ent → Bool) (e : Ent) (es : List Ent) :
+    (keep e = false → drawLayoutFiltered doc ctx keep (e :: es) = drawLayoutFiltered doc ctx keep es) ∧
+    (keep e = true → drawLayoutFiltered doc ctx keep (e :: es) = drawLayout doc ctx (e :: es.filter keep)) ∧
+    ((∀ x, keep x = true) → drawLayoutFiltered doc ctx keep es = drawLayout doc ctx es) := by
+  refine ⟨fun h => by simp [drawLayoutFiltered, List.filter_cons, h],
+    fun h => by simp [drawLayoutFiltered, List.filter_cons, h], fun h => ?_⟩
+  have : es.filter keep = es := List.filter_eq_self.mpr (fun x _ => h x)
+  simp [drawLayoutFiltered, this]
+
+/-- a filter that rejects the LINE entities of the layout does not remove the LINE inside the referenced block -/
+def keepNoLine : Ent → Bool
+  | .leaf .line _ _ => false
+  | _ => true
+#guard (drawLayoutFiltered wDoc wCtx keepNoLine [.leaf .line p0 [⟨0, 0⟩, ⟨9, 9⟩], .ins wOuter]).toOption.map
+  (fun r => r.1.map (fun pr => (pr.kind, pr.pts))) = some [(.line, [⟨0, 0⟩, ⟨0, 1⟩])]
+
+/-- `draw_layout` with a redraw order table (ACAD_SORTENTS): every entity of the layout is drawn exactly once (a
+    permutation), in ascending order of its sort handle (the table entry, else the own handle; 0 sorts last); without a table
+    the layout order is kept.  (Equal sort handles keep the layout order: stable merge sort = the (sort handle, index) heap.) -/
+theorem redraw_order_rules (mapping : List (Nat × Nat)) (ents : List Ent) :
+    (redrawOrder mapping ents).Perm ents ∧
+    (mapping = [] → redrawOrder mapping ents = ents) ∧
+    (mapping ≠ [] → (redrawOrder mapping ents).Pairwise (fun a b => sortHandle mapping a ≤ sortHandle mapping b)) := by
+  refine ⟨?_, ?_, ?_⟩
+  · simp only [redrawOrder]
+    split
+    · exact List.Perm.refl _
+    · exact List.mergeSort_perm _ _
+  · intro h; simp [redrawOrder, h]
+  · intro h
+    have hne : mapping.isEmpty = false := by cases mapping <;> simp_all
+    simp only [redrawOrder, hne, Bool.false_eq_true, if_false]
+    have := List.pairwise_mergeSort (le := fun a b => decide (sortHandle mapping a ≤ sortHandle mapping b))
+      (by intro a b c h1 h2; simp only [decide_eq_true_eq] at *; omega)
+      (by intro a b; simp only [Bool.or_eq_true, decide_eq_true_eq]; omega) ents
+    simpa using this
+
+#guard (redrawOrder [(5, 0), (7, 2)] [.leaf .line { p0 with handle := 5 } [], .leaf .line { p0 with handle := 6 } [],
+  .leaf .line { p0 with handle := 7 } []]).map entHandle = [7, 6, 5]
+
+/-- ATTDEF entities are drawn only as entities of the layout itself: block content never yields an ATTDEF entity, with or
+    without the explode fall-back, at any nesting depth -/
+theorem attdef_never_from_block (doc : Doc) (f : Nat) (m : Aff) (blk : Block) (ents : List Ent)
+    (h : virtualEntities doc f m blk = .ok ents) : ∀ e ∈ ents, isAttdef e = false := by
+  have hcopy : ∀ b : Block, ∀ e ∈ blockCopies b, isAttdef e = false := by
+    intro b e he
+    simp only [blockCopies, List.mem_map, List.mem_filter] at he
+    obtain ⟨e0, ⟨_, hf⟩, rfl⟩ := he
+    cases e0 with
+    | leaf k p pts => cases k <;> simp_all [copyEnt, isAttdef]
+    | ins i => rfl
+  refine explode_pred doc (fun e => isAttdef e = false) hcopy ?_ ?_ f m (blockCopies blk) ents (hcopy blk) h
+  · intro k p pts pts' hq; cases k <;> simp_all [isAttdef]
+  · intro m i i' _ _; rfl
+
+/-- `_draw_viewports`: only viewports with a positive status are drawn, each at most once, never more than were given -/
+theorem viewports_drawn_rules {α : Type} (status : α → Int) (l : List α) :
+    (∀ v ∈ selectVps status l, 0 < status v ∧ v ∈ l) ∧ (selectVps status l).length ≤ l.length := by
+  have hmem : ∀ v ∈ (l.mergeSort (fun a b => decide (status a ≤ status b))).filter (fun v => decide (0 < status v)),
+      0 < status v ∧ v ∈ l := by
+    intro v hv
+    simp only [List.mem_filter, List.mem_mergeSort, decide_eq_true_eq] at hv
+    exact ⟨hv.2, hv.1⟩
+  have hlen : ((l.mergeSort (fun a b => decide (status a ≤ status b))).filter (fun v => decide (0 < status v))).length ≤ l.length := by
+    calc _ ≤ (l.mergeSort (fun a b => decide (status a ≤ status b))).length := List.length_filter_le _ _
+      _ = l.length := List.length_mergeSort _
+  simp only [selectVps]
+  split
+  · simp
+  · rename_i v rest heq
+    rw [heq] at hmem hlen
+    split
+    · exact ⟨fun s hs => hmem s (List.mem_cons_of_mem _ hs), by simp at hlen ⊢; omega⟩
+    · exact ⟨hmem, hlen⟩
+
+#guard viewportsDrawn [2, 1, 0, -1, 3] = [2, 3]
+#guard viewportsDrawn [2, 3] = [2, 3]
+#guard viewportsDrawn [1, 1] = [1]
+
+/-! ## layer tables: VIEWPORT frozen layers, layer property overrides -/
+
+private theorem lookup_map {α : Type} (ls : List α) (g : α → String × LayerProps) (key : String) (lp : LayerProps)
+    (h : ((ls.map g).find? (fun p => p.1 = key)).map (·.2) = some lp) : ∃ l ∈ ls, (g l).1 = key ∧ (g l).2 = lp := by
+  induction ls with
+  | nil => simp at h
+  | cons l ls ih =>
+    simp only [List.map_cons, List.find?_cons] at h
+    split at h
+    · rename_i hk
+      simp at h hk
+      exact ⟨l, List.mem_cons_self, hk, h⟩
+    · obtain ⟨l', hl', h1, h2⟩ := ih h
+      exact ⟨l', List.mem_cons_of_mem _ hl', h1, h2⟩
+
+/-- a layer frozen in the VIEWPORT (`vp.frozen_layers`, any spelling) is hidden in the viewport's layer table, whatever its
+    state in the document and whatever per-viewport property overrides it has; with `nothing_on_hidden_layers` nothing of
+    the viewport content is drawn on it -/
+theorem vp_frozen_hidden (fg : Nat) (aci : List Nat) (ex : Bool) (ls : List (RawLayer × Option VpOverride))
+    (frozen : List String) (name : String) (lp : LayerProps) (hf : name ∈ frozen)
+    (hl : (mkVpCtxOv fg aci ex ls frozen).lookup (layerKey name) = some lp) : lp.visible = false := by
+  simp only [mkVpCtxOv, Ctx.lookup] at hl
+  obtain ⟨l, _, h1, h2⟩ := lookup_map ls _ _ _ hl
+  simp only at h1 h2
+  have hc : ∀ k, k = layerKey name → (frozen.map layerKey).contains k = true := by
+    intro k hk
+    rw [hk]; simp only [List.contains_eq_mem, List.mem_map, decide_eq_true_eq]; exact ⟨name, hf, rfl⟩
+  rw [hc _ h1] at h2
+  simp at h2
+  rw [← h2]
+
+/-- per-viewport property overrides (`_apply_layer_overrides`) change colour, transparency, linetype and lineweight of a layer
+    but never its name nor its visibility: they cannot switch a layer on or off, thaw it or make it plottable -/
+theorem vp_override_keeps_state (fg : Nat) (aci : List Nat) (ex : Bool) (l : RawLayer) (o : VpOverride)
+    (ho : o.aci ≠ 0) :   -- `LayerOverrides.set_color` rejects ACI 0 / 256 / 257 (`is_valid_layer_color_index`)
+    (resolveLayerProps fg aci ex (applyOverride l o)).visible = (resolveLayerProps fg aci ex l).visible ∧
+    (resolveLayerProps fg aci ex (applyOverride l o)).layer = (resolveLayerProps fg aci ex l).layer ∧
+    (resolveLayerProps fg aci ex (applyOverride l o)).linetype = upper o.linetype := by
+  refine ⟨?_, rfl, rfl⟩
+  rw [Bool.eq_iff_iff, layer_visible_iff, layer_visible_iff]
+  have hc : 0 ≤ (applyOverride l o).color ↔ 0 ≤ l.color := by
+    simp only [applyOverride]
+    split <;> omega
+  have hf : (applyOverride l o).flags = l.flags := rfl
+  have hp : (applyOverride l o).plot = l.plot := rfl
+  rw [hc, hf, hp]
+
+example : (⟨3, none, 0x020000FF, "DASHED", 50⟩ : VpOverride).aci ≠ 0 := by decide
+
+/-- the content of a VIEWPORT (fix 0ff4be141: the context of the viewport is used at every nesting depth): whatever is drawn
+    for the modelspace entities with the viewport's layer table - layout entities, block content, ATTRIBs, at any depth -
+    nothing is on a layer that is frozen in the viewport and defined in the layer table -/
+theorem vp_frozen_nothing_drawn (doc : Doc) (fg : Nat) (aci : List Nat) (ex : Bool) (ls : List RawLayer) (v : Vp)
+    (msp : List Ent) (out : List Prim) (st : State)
+    (hd : drawLayout doc (vpCtx fg aci ex ls v) msp = .ok (out, st)) :
+    ∀ pr ∈ out, ∀ name ∈ v.frozen, layerKey pr.layer = layerKey name → (vpCtx fg aci ex ls v).lookup (layerKey name) = none := by
+  intro pr hpr name hn hk
+  have hs := nothing_on_hidden_layers doc (vpCtx fg aci ex ls v) _ 0 msp State.init out st hd pr hpr
+  cases hl : (vpCtx fg aci ex ls v).lookup (layerKey name) with
+  | none => rfl
+  | some lp =>
+    have h1 : lp.visible = false := vp_frozen_hidden fg aci ex _ v.frozen name lp hn hl
+    have h2 : lp.visible = true := hs lp (by rw [hk]; exact hl)
+    rw [h1] at h2; simp at h2
+
+/-- what a paperspace layout with viewports sends to the backend: its own entities, then for every selected viewport the
+    modelspace drawn with the viewport's context and mapped by the viewport matrix (coordinates only: properties, layers
+    and handles are those of the modelspace entities) -/
+theorem viewport_content_mapped (m : Aff) (ps : List Prim) :
+    (mapPrims m ps).length = ps.length ∧
+    ∀ p ∈ mapPrims m ps, ∃ q ∈ ps, p.pts = q.pts.map m.apply ∧ p.layer = q.layer ∧ p.color = q.color ∧ p.pen = q.pen ∧
+      p.lineweight = q.lineweight ∧ p.linetype = q.linetype ∧ p.handle = q.handle ∧ p.kind = q.kind := by
+  constructor
+  · simp [mapPrims]
+  · intro p hp
+    simp only [mapPrims, List.mem_map] at hp
+    obtain ⟨q, hq, rfl⟩ := hp
+    exact ⟨q, hq, rfl, rfl, rfl, rfl, rfl, rfl, rfl, rfl⟩
+
+/-- what a per-viewport override puts into the layer table of the viewport: pen = the override ACI with the sign (on/off
+    state) of the layer, lineweight = the override lineweight (negative: the default 0.25 mm), linetype in upper case -/
+theorem vp_override_values (fg : Nat) (aci : List Nat) (ex : Bool) (l : RawLayer) (o : VpOverride) :
+    (resolveLayerProps fg aci ex (applyOverride l o)).pen = (if 0 ≤ l.color then (o.aci.natAbs : Int) else -(o.aci.natAbs : Int)) ∧
+    (resolveLayerProps fg aci ex (applyOverride l o)).lineweight =
+      (if o.lineweight < 0 then 1 / 4 else (o.lineweight : Rat) / 100) ∧
+    (resolveLayerProps fg aci ex (applyOverride l o)).linetype = upper o.linetype := by
+  refine ⟨rfl, ?_, rfl⟩
+  simp [resolveLayerProps, applyOverride, defaultLineweight]
+
+/-- `set_layer_properties_override`: the traversal sees exactly the edited table (same keys, edited properties) -/
+theorem override_lookup (ctx : Ctx) (f : LayerProps → LayerProps) (key : String) :
+    (ctx.overrideLayers f).lookup key = (ctx.lookup key).map f := by
+  simp only [Ctx.overrideLayers, Ctx.lookup]
+  induction ctx.layers with
+  | nil => rfl
+  | cons p ps ih =>
+    simp only [List.map_cons, List.find?_cons]
+    cases hq : decide (p.1 = key)
+    · simpa only [hq] using ih
+    · simp [hq]
+
+/-! ## MINSERT -/
+
+private theorem eraseDups_length_le {α : Type} [BEq α] : ∀ (n : Nat) (l : List α), l.length ≤ n → l.eraseDups.length ≤ l.length := by
+  intro n
+  induction n with
+  | zero => intro l hl; cases l with
+    | nil => simp
+    | cons a as => simp at hl
+  | succ n ih =>
+    intro l hl
+    cases l with
+    | nil => simp
+    | cons a as =>
+      rw [List.eraseDups_cons]
+      simp only [List.length_cons] at hl ⊢
+      have h1 : (as.filter (fun b => !b == a)).length ≤ as.length := List.length_filter_le _ _
+      have h2 := ih (as.filter (fun b => !b == a)) (by omega)
+      omega
+
+/-- `Insert.mcount`/`multi_insert`: without a non-zero spacing there is one element (the reference itself, attribs and handle
+    untouched); every grid element is a virtual copy with the rotation, scale factors, extrusion and block of the MINSERT
+    and no grid of its own; there are at most `rows * cols` elements -/
+theorem minsert_rules (i : Ins) :
+    (mcount i ≤ 1 → cells i = [i]) ∧
+    (1 < mcount i → ∀ c ∈ cells i, c.dir = i.dir ∧ c.sx = i.sx ∧ c.sy = i.sy ∧ c.flip = i.flip ∧ c.name = i.name ∧
+      c.props = clearHandle i.props ∧ mcount c = 1) ∧
+    (cells i).length ≤ max 1 (i.rows * i.cols) := by
+  refine ⟨fun h => by simp [cells, Nat.not_lt.mpr h], fun h c hc => ?_, ?_⟩
+  · simp only [cells, h, if_true, multiInsert, List.mem_map] at hc
+    obtain ⟨off, _, rfl⟩ := hc
+    simp [gridCell, copyIns, mcount]
+  · simp only [cells]
+    split
+    · simp only [multiInsert, List.length_map, gridOffsets]
+      refine le_trans (eraseDups_length_le _ _ (le_refl _)) ?_
+      simp [List.length_flatMap]
+    · simp
+
+/-- the grid of a MINSERT: the element at the OCS offset `off` = (column * column_spacing, row * row_spacing) is the reference
+    itself translated by `off` turned by the rotation of the reference (and taken to the WCS) - the spacing is measured along
+    the rotated axes and is NOT scaled; rotation, scale factors, extrusion, block and base point are those of the reference -/
+theorem minsert_cell_matrix (i : Ins) (off : P2) (base : P2) :
+    xfOf (gridCell i off) base =
+      { xfOf i base with tx := (xfOf i base).tx + (ocsFlip i.flip (rotateBy i.dir off)).x,
+                         ty := (xfOf i base).ty + (ocsFlip i.flip (rotateBy i.dir off)).y } :=
+  xfOf_gridCell i off base
+
+/-! ## BackendProperties.handle (fix 3c8d4c469) -/
+
+/-- everything drawn for a list of virtual entities (the content of a block reference at ANY nesting depth, the grid elements
+    of a MINSERT, nested references and their ATTRIBs) carries the handle `h` that was current when the list was
+    entered - the handle of the top level entity -/
+theorem handle_rule (doc : Doc) (ctx : Ctx) (fuel h : Nat) (ents : List Ent) (st : State) (out : List Prim) (st' : State)
+    (hv : ∀ e ∈ ents, VirtualEnt e) (hd : drawEnts doc ctx fuel h ents st = .ok (out, st')) :
+    ∀ pr ∈ out, pr.handle = h :=
+  EzdxfVerif.Render.handle_rule doc ctx fuel h ents st out st' hv hd
+
+/-- what `virtual_block_reference_entities` yields is virtual (copies without handles), so `handle_rule` applies to it -/
+theorem block_content_is_virtual (doc : Doc) (f : Nat) (m : Aff) (blk : Block) (ents : List Ent)
+    (h : virtualEntities doc f m blk = .ok ents) : ∀ e ∈ ents, VirtualEnt e :=
+  virtualEntities_virtual doc f m blk ents h
+
+/-- a top level entity with handle `k`: a leaf entity is reported under `k`; of a block reference everything - block content at
+    any depth, every grid element of a MINSERT - is reported under `k`, except its directly attached ATTRIB entities, which
+    are database entities and are reported under their own handle -/
+theorem handle_top_level (doc : Doc) (ctx : Ctx) (fuel h : Nat) (e : Ent) (st : State) (out : List Prim) (st' : State)
+    (hd : drawEnts doc ctx fuel h [e] st = .ok (out, st')) :
+    match e with
+    | .leaf _ p _ => p.handle ≠ 0 → ∀ pr ∈ out, pr.handle = p.handle
+    | .ins i => i.props.handle ≠ 0 → ∀ pr ∈ out, pr.handle = i.props.handle ∨
+        (pr.kind = .attrib ∧ ∃ a ∈ i.attribs, a.props.handle ≠ 0 ∧ pr.handle = a.props.handle) :=
+  EzdxfVerif.Render.handle_top_level doc ctx fuel h e st out st' hd
+
+/-- non-vacuity: a top level INSERT #77 with an ATTRIB #78: the ATTRIB is reported under 78, the block content under 77 -/
+def hIns : Ins := ⟨{ p0 with handle := 77 }, "INNER", ⟨0, 0⟩, 1, 1, ⟨1, 0⟩, false, [⟨{ p0 with handle := 78 }, false, ⟨3, 3⟩⟩], 1, 1, 0, 0⟩
+#guard (drawLayout wDoc wCtx [.ins hIns]).toOption.map (fun r => r.1.map (fun pr => (pr.kind, pr.handle))) =
+  some [(.attrib, 78), (.line, 77)]
 
 /-! ## ties to the constants of the live modules -/
 theorem tie_constants :
@@ -564,6 +841,11 @@ theorem tie_lineweight :
 
 theorem tie_layer_alpha : Gen.RenderTables.layerAlpha = List.range 256 := by decide +kernel
 
+/-- a per-viewport layer override that does not touch the transparency leaves it as it is: the float round trip that
+    `_apply_layer_overrides` sends every layer transparency through is the identity on all 256 values (fix ee1ba162e; before,
+    42 values lost one unit of alpha); `applyOverride` takes the raw value after this round trip -/
+theorem tie_transparency_roundtrip : Gen.RenderTables.transparencyRoundTrip = List.range 256 := by decide +kernel
+
 theorem tie_plot_styles : Gen.RenderTables.ctbAllObject = true ∧ Gen.RenderTables.aciRgb.length = 256 := by
   constructor <;> decide +kernel
 
@@ -573,5 +855,50 @@ theorem tie_default_layer :
     Gen.RenderTables.dfltLayerLinetype = defaultLayer.linetype ∧ Gen.RenderTables.dfltLayerAci7 = defaultLayer.hasAci7 ∧
     Gen.RenderTables.dfltLayerVisible = defaultLayer.visible ∧ Gen.RenderTables.dfltLayerName = defaultLayer.layer := by
   refine ⟨by decide, by decide, rfl, by decide, rfl, rfl, rfl, rfl⟩
+
+/-- AST-extracted control flow of `draw_composite_entity` (every run, from the current frontend.py / properties.py) equals the
+    shape the model transcribes: in the INSERT branch `push_state`, then ONE `if entity.mcount > 1` statement whose two
+    branches only call `draw_insert` (in a `for` over `multi_insert()` / once), then `pop_state`; NO statement in that
+    branch or in `draw_insert` leaves early (return / raise / break / continue / yield / try / with), so every exit path of
+    the branch passes the one `pop_state`; exactly one `push_state` and one `pop_state` call in frontend.py;
+    `push_state` = append + assign, `pop_state` = assign from `pop()`.  (`stack_balanced` is the theorem about this shape;
+    seeded change C18-m2 - an early `return` after `push_state` - breaks this tie.) -/
+theorem tie_push_pop_shape :
+    Gen.RenderShape.insertTest = "isinstance(entity, Insert)" ∧
+    Gen.RenderShape.insertBranch = ["call self.ctx.push_state", "if entity.mcount > 1", "call self.ctx.pop_state"] ∧
+    Gen.RenderShape.mcountThen = ["for virtual_insert in entity.multi_insert()"] ∧
+    Gen.RenderShape.mcountThenLoop = ["call draw_insert"] ∧ Gen.RenderShape.mcountElse = ["call draw_insert"] ∧
+    Gen.RenderShape.insertBranchExits = 0 ∧ Gen.RenderShape.drawInsertExits = 0 ∧
+    Gen.RenderShape.pushCalls = 1 ∧ Gen.RenderShape.popCalls = 1 ∧
+    Gen.RenderShape.pushBody = ["call self._saved_states.append", "assign self.current_block_reference_properties = block_reference"] ∧
+    Gen.RenderShape.popBody = ["assign self.current_block_reference_properties = call self._saved_states.pop"] := by
+  decide +kernel
+
+/-- statement order of the other transcribed functions: `_draw_entities` (filter before the loop; VIEWPORT deferred, proxy
+    wrapping, `resolve_all`, property override, visibility test → `draw_entity` / `skip_entity`), `draw_entity` (handle set
+    for non-virtual entities right after `enter_entity`, `exit_entity` last, no early exit), `draw_insert` (ATTRIBs, handle
+    reset, clipping set-up, block content, clipping frame), `filter_func` passed by `draw_layout` only,
+    `draw_entities_callback` (viewport content) switches `self.ctx` to the context it is given (fix 0ff4be141) -/
+theorem tie_traversal_shape :
+    Gen.RenderShape.loopPrefix.head? = some "if filter_func is not None" ∧
+    Gen.RenderShape.loopBody = ["if isinstance(entity, Viewport)", "if not isinstance(entity, DXFGraphic)",
+      "assign properties = call ctx.resolve_all", "call frontend.exec_property_override", "if properties.is_visible"] ∧
+    Gen.RenderShape.loopVisible = ["call frontend.draw_entity"] ∧ Gen.RenderShape.loopInvisible = ["call frontend.skip_entity"] ∧
+    Gen.RenderShape.drawEntityHead = ["call self.pipeline.enter_entity", "if not entity.is_virtual"] ∧
+    Gen.RenderShape.drawEntityHandleSet = ["call self.pipeline.set_current_entity_handle"] ∧
+    Gen.RenderShape.drawEntityTail = "call self.pipeline.exit_entity" ∧ Gen.RenderShape.drawEntityExits = 0 ∧
+    Gen.RenderShape.drawInsert = ["call self.draw_entities", "if not entity.is_virtual", "assign clip = call xclip.XClip",
+      "assign is_clipping_active = clip.has_clipping_path and clip.is_clipping_enabled", "if is_clipping_active",
+      "call self.draw_entities", "if is_clipping_active and clip.get_xclip_frame_policy()"] ∧
+    Gen.RenderShape.layoutFilterArgs = Gen.RenderShape.layoutDrawCalls ∧ Gen.RenderShape.otherFilterArgs = 0 ∧
+    -- viewport content: the callback of the pipeline installs the given context as `self.ctx` for the whole traversal
+    Gen.RenderShape.callbackBody = ["assign saved_ctx = self.ctx", "assign self.ctx = ctx", "try"] ∧
+    Gen.RenderShape.callbackTry = ["call _draw_entities"] ∧
+    Gen.RenderShape.callbackFinally = ["assign self.ctx = saved_ctx"] ∧
+    -- draw_layout: redraw order table → `reorder.ascending`, else the layout itself (`redrawOrder`)
+    Gen.RenderShape.layoutBody = ["if layout_properties is not None", "call self.set_background", "assign self.parent_stack = []",
+      "assign handle_mapping = call list", "if handle_mapping", "if finalize"] ∧
+    Gen.RenderShape.layoutOrdered = "reorder.ascending(layout, handle_mapping)" ∧ Gen.RenderShape.layoutPlain = "layout" := by
+  decide +kernel
 
 end EzdxfVerif.Props.C18
